@@ -28,8 +28,9 @@ from vlib.core import HarnessError, REPO_DIR, Sub
 PROPERTY = 'C12'
 LEVEL = 'fault_enumeration'
 RULE = (
-    'Hypothesis generates scenario descriptors (destination present with old contents or absent; 1-2 consecutive '
-    'uses of one AtomicWriter; body = writes/flushes/seeks/truncates in bytes or text mode with sizes 0..200 KiB '
+    'Hypothesis generates scenario descriptors (destination present with old contents or absent; 1-3 consecutive '
+    'uses of one AtomicWriter, the non-final ones complete or abandoned (entered - once or twice in a row - and written '
+    'to, never exited); body = writes/flushes/seeks/truncates in bytes or text mode with sizes 0..200 KiB '
     'around the buffer size; 0-2 directory levels to create; stale tmp_N files; str/Path/relative target); inside '
     'one evaluation EVERY boundary of the recorded trace is a crash point, EVERY operation x errno a fault point, '
     'every write (before/half-way) and every body position a body-exception point (classes "pt:*" in the histogram '
@@ -49,6 +50,10 @@ ASSUMPTIONS = [
     'one injected OSError per run (statement: "every single injected OSError"); a failing close() still releases the '
     'descriptor (POSIX); body exception and injected OSError are not combined, so a fault in the cleanup unlink '
     'itself (which nothing could repair) is never demanded to leave no temp file',
+    'an abandoned use (no __exit__) is not a handled failure: its temp file may exist until the same writer object '
+    'is used again, which removes it (make_tempfile); so every scenario ends with a complete use, after which no temp '
+    'may remain; a single fault at or before that removal may leave the abandoned temp (nothing else could remove it); '
+    'faults/body exceptions are enumerated in complete uses only, kill points everywhere',
     'after a handled failure only *files* are compared with the initial listing: directories created by '
     'parent.mkdir(parents=True) are not temporary files',
     'expected new contents come from an independent byte/str model of the body (BSP.save: a plain un-instrumented '
@@ -385,10 +390,16 @@ class Plan:
             self.initial[self.dest] = old
         self.contents = [old]
         self.calls = []
+        # 'with': a complete use; 'abandon': __enter__ + the calls, __exit__ never runs; 'abandon2': __enter__ is
+        # called twice in a row first.  An abandoned use commits nothing.  The last use is always complete.
+        modes = list(d.get('modes') or [])
+        self.modes = [(modes[ph] if ph < len(modes) else 'with') for ph in range(len(d['bodies']))]
+        if self.modes:
+            self.modes[-1] = 'with'
         for ph, body in enumerate(d['bodies']):
             calls, new = self._model(body, seed + 1000 * (ph + 1))
             self.calls.append(calls)
-            self.contents.append(new)
+            self.contents.append(new if self.modes[ph] == 'with' else self.contents[-1])
 
     def _model(self, body, seed):
         """Independent model of the body: the calls to make and the bytes the file must end up with."""
@@ -440,6 +451,7 @@ class Plan:
         self.initial[self.dest] = old
         self.contents = [old, None]      # new is filled in by load_bsp()
         self.calls = [None]
+        self.modes = ['with']
 
     def load_bsp(self, case_dir: str):
         """Load the sample, modify it, and obtain the reference output by a plain save elsewhere."""
@@ -569,22 +581,36 @@ def run_once(plan: Plan, root: str, rec: Recorder, harness_raise=None) -> dict:
             writer = AtomicWriter(target, is_bytes=False, encoding=plan.enc)
         else:
             writer = AtomicWriter(target, is_bytes=True)
+        def do(f, call):
+            if call[0] == 'w':
+                f.write(call[1])
+            elif call[0] == 'f':
+                f.flush()
+            elif call[0] == 's':
+                f.seek(call[1])
+            elif call[0] == 't':
+                f.truncate(call[1])
+
         for ph, calls in enumerate(plan.calls):
             rec.phase = ph
+            if plan.modes[ph] != 'with':
+                # abandoned use: entered, written to, never exited (no fault is ever planned inside it)
+                f = writer.__enter__()
+                if plan.modes[ph] == 'abandon2':
+                    f = writer.__enter__()
+                for call in calls:
+                    do(f, call)
+                del f
+                out['committed'] = ph + 1
+                rec({'op': 'end', 'at': 'pre', 'path': plan.dest})
+                continue
             try:
                 with writer as f:
                     for j, call in enumerate(calls):
                         if harness_raise == (ph, j):
                             rec.exc = BodyError(f'body fails before call {j}')
                             raise rec.exc
-                        if call[0] == 'w':
-                            f.write(call[1])
-                        elif call[0] == 'f':
-                            f.flush()
-                        elif call[0] == 's':
-                            f.seek(call[1])
-                        elif call[0] == 't':
-                            f.truncate(call[1])
+                        do(f, call)
                     if harness_raise == (ph, len(calls)):
                         rec.exc = BodyError('body fails after its last call')
                         raise rec.exc
@@ -617,10 +643,41 @@ def window_points(trace: list) -> set:
     return res
 
 
-def check_listing(ctx, plan: Plan, root: str, committed: int, prefix: str, what: str, **facts) -> None:
-    """After the `with` statement is over: the files are exactly the initial ones plus the committed destination."""
+def abandoned_allowed(plan: Plan, trace: list, i: int) -> set:
+    """Temp files of abandoned uses that may still exist after a handled failure caused by a fault at boundary i.
+
+    An abandoned temp file legitimately exists until the writer object is used again; the unchanged design removes
+    it at the start of the next use (close + unlink in make_tempfile).  A single fault at or before that unlink
+    hits the removal itself (nothing else could remove the file), so the file may then remain; after it, not.
+    """
+    res = set()
+    for q, mode in enumerate(plan.modes):
+        if mode == 'with':
+            continue
+        temp = None
+        for b in trace:
+            if b['phase'] == q and b['op'] == 'open' and 'res' not in b:
+                temp = b['path']
+        if temp is None:
+            continue
+        gone = None
+        for k, b in enumerate(trace):
+            if b['phase'] > q and b['op'] == 'unlink' and b['path'] == temp:
+                gone = k
+                break
+        if gone is not None and i <= gone:
+            res.add(temp)
+    return res
+
+
+def check_listing(ctx, plan: Plan, root: str, committed: int, prefix: str, what: str, allow=(), **facts) -> None:
+    """After the `with` statement is over: the files are exactly the initial ones plus the committed destination
+    (`allow`: paths that may, but need not, exist in addition)."""
     exp = plan.expected_after(committed)
     got = snapshot(root)
+    for rel in allow:
+        if rel not in exp:
+            got.pop(rel, None)
     names = plan.names()
     gd, ed = got.get(plan.dest), exp.get(plan.dest)
     if gd != ed:
@@ -735,6 +792,10 @@ def classify(desc, plan: Plan, trace: list, ctx) -> None:
             ctx.label('stale')
         if len(plan.calls) > 1:
             ctx.label('repeat')
+        if any(m != 'with' for m in plan.modes):
+            ctx.label('abandoned_then_reused')
+        if 'abandon2' in plan.modes:
+            ctx.label('double_enter')
         if desc['path_style'] == 'rel':
             ctx.label('relative')
         if any(b['op'] == 'write' and b['n'] >= 65536 for b in trace):
@@ -742,7 +803,8 @@ def classify(desc, plan: Plan, trace: list, ctx) -> None:
         if any(b['op'] == 'seek' for b in trace):
             ctx.label('seek')
     win = window_points(trace)
-    distinct = all(plan.contents[i] != plan.contents[i + 1] for i in range(len(plan.contents) - 1))
+    distinct = all(plan.contents[i] != plan.contents[i + 1] for i in range(len(plan.contents) - 1)
+                   if plan.modes[i] == 'with')
     ctx.nontrivial(bool(win) and distinct)
 
 
@@ -855,6 +917,8 @@ def execute_fault(desc, ctx) -> None:
         for i, b in enumerate(trace):
             if b['at'] != 'pre' or b['op'] == 'end' or not slice_ok(desc, i):
                 continue
+            if plan.modes[b['phase']] != 'with':
+                continue        # nobody handles an error inside a use that is abandoned anyway; kill points only
             for err in ERRS[b['op']]:
                 if errsel and err not in errsel:
                     continue
@@ -879,7 +943,8 @@ def execute_fault(desc, ctx) -> None:
                                   what + ' was swallowed and the with-statement returned normally', **facts)
                 else:
                     check_listing(ctx, plan, root, out['failed_phase'], 'fault',
-                                  what + f' propagated as {type(out["exc"]).__name__}', **facts)
+                                  what + f' propagated as {type(out["exc"]).__name__}',
+                                  allow=abandoned_allowed(plan, trace, i), **facts)
                 cd.drop(root)
 
 
@@ -894,6 +959,8 @@ def execute_body(desc, ctx) -> None:
         # (1) raised through a write (before any of it / after half of it)
         for i, b in enumerate(trace):
             if b['op'] != 'write' or not slice_ok(desc, i) or not only_ok(desc, 'body', i):
+                continue
+            if plan.modes[b['phase']] != 'with':
                 continue
             root = cd.fresh()
             rec = Recorder({'at': i, 'act': 'body'}, faulted_run_inspector(ctx, plan, root, f'body@{i}'))
@@ -910,6 +977,8 @@ def execute_body(desc, ctx) -> None:
         # (2) raised by the body itself before its j-th call / after the last one
         if plan.kind != 'bsp':
             for ph, calls in enumerate(plan.calls):
+                if plan.modes[ph] != 'with':
+                    continue
                 for j in range(len(calls) + 1):
                     if not only_ok(desc, 'body_h', ph * 1000 + j):
                         continue
@@ -1260,7 +1329,8 @@ def scenario_strategy(tier: str):
     def scn(draw):
         text = draw(st.booleans())
         nested = draw(st.sampled_from([0, 0, 0, 1, 2]))
-        nb = draw(st.sampled_from([1, 1, 1, 2]))
+        nb = draw(st.sampled_from([1, 1, 1, 2, 2, 3]))
+        modes = [draw(st.sampled_from(['with', 'with', 'abandon', 'abandon2'])) for _ in range(nb - 1)] + ['with']
         stride = 8 if tier == 'quick' else 1
         return {
             'kind': 'writer',
@@ -1273,6 +1343,7 @@ def scenario_strategy(tier: str):
             'text': text,
             'enc': draw(st.sampled_from(['utf8', 'utf16'])) if text else 'utf8',
             'bodies': [draw(body_strategy(tier, text)) for _ in range(nb)],
+            'modes': modes,
             'seed': draw(st.integers(0, 999)),
             'fork': [stride, draw(st.integers(0, stride - 1))],
             'only': None,
@@ -1399,15 +1470,18 @@ def extra_evidence() -> dict:
 
 SUBCHECKS = [
     Sub('crash', execute_crash, strategy=scenario_strategy, quick=640, thorough=12000, floor=100, quick_shards=8,
-        must_hit=('text', 'bytes', 'old_present', 'old_absent', 'nested', 'stale', 'repeat', 'relative', 'big_write',
+        must_hit=('text', 'bytes', 'old_present', 'old_absent', 'nested', 'stale', 'repeat', 'abandoned_then_reused',
+                  'double_enter', 'relative', 'big_write',
                   'seek', 'pt:crash', 'pt:crash_window', 'pt:fork_kill')),
     Sub('fault', execute_fault, strategy=scenario_strategy, quick=480, thorough=16000, floor=80, quick_shards=8,
-        must_hit=('text', 'bytes', 'old_present', 'old_absent', 'nested', 'stale', 'repeat',
+        must_hit=('text', 'bytes', 'old_present', 'old_absent', 'nested', 'stale', 'repeat', 'abandoned_then_reused',
+                  'double_enter',
                   'pt:fault:open:ENOSPC', 'pt:fault:write:partial', 'pt:fault:write:EIO', 'pt:fault:close:ENOSPC',
                   'pt:fault:close:EIO', 'pt:fault:replace:EXDEV', 'pt:fault:replace:EACCES', 'pt:fault:mkdir:EACCES',
                   'pt:fault:flush:ENOSPC', 'pt:fault:seek:EIO', 'pt:fault_window')),
     Sub('body', execute_body, strategy=scenario_strategy, quick=640, thorough=16000, floor=100, quick_shards=8,
-        must_hit=('text', 'bytes', 'old_present', 'old_absent', 'nested', 'stale', 'repeat',
+        must_hit=('text', 'bytes', 'old_present', 'old_absent', 'nested', 'stale', 'repeat', 'abandoned_then_reused',
+                  'double_enter',
                   'pt:body:pre', 'pt:body:mid', 'pt:body:call')),
     Sub('bsp_crash', execute_crash, enumerate=bsp_enum, floor=1, enum_counts_distinct=True,
         quick_shards=8, must_hit=('bsp', 'pt:crash', 'pt:crash_window', 'pt:fork_kill')),
